@@ -201,7 +201,9 @@ class Model:
         return res
 
     def lazy(self, f):
-        if impure(f.body):
+        # eager_ok: the caller guarantees that nothing observable happens between building the lazy value and
+        # forcing it (it is the last thing in the program), so evaluating it at once is the same history
+        if impure(f.body) and not getattr(self, "eager_ok", False):
             raise Skip("lazy-evaluation-of-impure-body")
         return f
 
